@@ -3,7 +3,7 @@
    zero entry or the image of one well-formed Store of the history. *)
 From Coq Require Import ZArith List Bool Lia.
 From Coq Require Import ZifyBool.
-From Galene Require Import Lib.Word Model.Cache.
+From Galene Require Import Lib.Word Lib.Ring Model.Cache.
 Import ListNotations.
 Open Scope Z_scope.
 Ltac Zify.zify_post_hook ::= Z.div_mod_to_equations.
